@@ -34,6 +34,13 @@ class Ret(Exception):
         self.v = v
 
 
+class NeedDecision(Exception):
+    """An `if` whose condition is symbolic: the driver re-runs the function once per outcome (oracle)."""
+    def __init__(self, cond):
+        Exception.__init__(self, repr(cond))
+        self.cond = cond
+
+
 class Unsupported(Exception):
     pass
 
@@ -65,6 +72,20 @@ class Sym:
             return self.ev(b["hir"], env)
         except Ret as r:
             return r.v
+
+    def call_fn_forking(self, name, args, oracle=(), depth=0):
+        """call_fn, but an `if` on a symbolic condition yields ("ite", cond, value-if-true, value-if-false)."""
+        S = Sym(self.fx, self.sc)
+        S.oracle = list(oracle)
+        S.dec_i = 0
+        try:
+            return S.call_fn(name, args)
+        except NeedDecision as nd:
+            if depth >= 4:
+                raise Unsupported("more than 4 nested symbolic conditions")
+            t = self.call_fn_forking(name, args, list(oracle) + [True], depth + 1)
+            f = self.call_fn_forking(name, args, list(oracle) + [False], depth + 1)
+            return ("ite", nd.cond, t, f)
 
     def bind(self, pat, v, env):
         k = pat["k"]
@@ -185,7 +206,17 @@ class Sym:
                 return self.ev(n["else"], env) if n.get("else") else None
             if "assert" in (n.get("mac") or "") or "assert" in (n["then"].get("mac") or ""):
                 return None
-            raise Unsupported("undecided if %r" % (cv,))
+            # symbolic condition: follow the oracle (one run of the function per outcome, see call_fn_forking)
+            oracle = getattr(self, "oracle", None)
+            if oracle is None:
+                raise Unsupported("undecided if %r" % (cv,))
+            i = self.dec_i
+            self.dec_i += 1
+            if i >= len(oracle):
+                raise NeedDecision(cv)
+            if oracle[i]:
+                return self.ev(n["then"], env)
+            return self.ev(n["else"], env) if n.get("else") else None
         if k == "Match":
             v = self.ev(n["scrut"], env)
             for a in n["arms"]:
@@ -388,6 +419,10 @@ def concretize(e, val):
         return concretize(e[1], val)
     if t == "const":
         return e[1]
+    if t == "ite":
+        return concretize(e[2], val) if concretize(e[1], val) else concretize(e[3], val)
+    if t == "len" and len(e) == 2 and e[1] == "line_infos":
+        return val.get("nlines", len(val["L"]))
     raise Unsupported("concretize %r" % (e,))
 
 
@@ -428,7 +463,7 @@ def witnesses(rng, scenario):
     cases = ["next-mid-line", "next-at-line-start-cur-nonempty", "next-at-line-start-cur-empty", "same-line-cur-empty-mid"] \
         if scenario == "inner" else ["eof"]
     for case in cases:
-        for _ in range(8):
+        for rep in range(10):
             nlines = 6
             L = {}
             b = rng.randint(0, 5)
@@ -441,7 +476,15 @@ def witnesses(rng, scenario):
                 s += ds
             cl = rng.randint(1, 3)
             nl = rng.randint(cl, 4) if case != "same-line-cur-empty-mid" else cl
+            single = rep >= 8       # a source without any line feed: one line, which starts after a BOM or at 0
+            if single:
+                if case == "next-at-line-start-cur-nonempty":
+                    continue
+                L = {0: L[0] if rep == 8 else {"byte": 0, "start": 0}}
+                cl = nl = 0
             v = {"L": L, "idx": rng.randint(0, 50), "cur.channel": "CH", "cur.type": "TY", "cur.payload": "PL"}
+            if single:
+                v["nlines"] = 1
             if scenario == "eof":
                 off = rng.randint(0, 3)
                 v.update({"cur.line": cl, "cur.byte": L[cl]["byte"] + off, "cur.start": L[cl]["start"] + min(off, 2)})
@@ -526,8 +569,8 @@ def run(cx, tags=("dev-none-stable", "rel-none-stable")):
                 acc = "buffer::TokenizedBuffer::" + ACCESSORS[fld]
                 try:
                     S = Sym(fx, sc)
-                    av = S.call_fn(acc, [("self",), ("atom", "idx")])
-                except Unsupported as ex:
+                    av = S.call_fn_forking(acc, [("self",), ("atom", "idx")])
+                except (Unsupported, NeedDecision) as ex:
                     cx.violation(rule, "UNANALYSED|%s|%s|%s" % (fld, sc, tag), "", "accessor %s: unsupported construct: %s" % (ACCESSORS[fld], ex))
                     continue
                 bv = bulk_vals.get(fld)
@@ -602,6 +645,8 @@ def compare(bv, av, rng, sc):
             x, y = concretize(bv, w), concretize(av, w)
         except KeyError as ex:
             return (w["_case"], "unbound %s" % ex, "", "")
+        except Unsupported as ex:
+            return (w["_case"], "cannot evaluate: %s" % ex, "", "")
         if x != y:
             return (w["_case"], x, y, {k: v for k, v in w.items() if not k.startswith("_") and k != "L"})
     return None
